@@ -93,6 +93,16 @@ pub fn rich_finally(mut p: Profile) -> Profile {
     p
 }
 
+/// Exceptions inside methods, constructors, static methods and fiber bodies.
+pub fn c08_members() -> Profile {
+    let mut p = c08();
+    p.name = "c08m";
+    p.w_class = 5;
+    p.w_fiber = 2;
+    p.size = 100;
+    p
+}
+
 pub fn by_name(n: &str) -> Option<Profile> {
     Some(match n {
         "c05" => c05(),
@@ -101,6 +111,7 @@ pub fn by_name(n: &str) -> Option<Profile> {
         "c08" => c08(),
         "c08t" => with_triggers(c08()),
         "c08f" => rich_finally(c08()),
+        "c08m" => c08_members(),
         "c09" => c09(),
         "c18" => c18(),
         "mixed" => mixed(),
